@@ -7,7 +7,9 @@ S=$(realpath "$1"); PID=$2; TIER=${3:-quick}; D=${4:-/tmp/seedchk-$$}
 rm -rf "$D"; mkdir -p "$D"
 git -C /repo archive HEAD src | tar -x -C "$D"
 if ! patch -s -p1 -d "$D" < "$S/patch.diff"; then echo "PATCH DOES NOT APPLY"; rm -rf "$D"; exit 3; fi
-VERIF_REPO="$D" VERIF_BUILD="$D/build" VERIF_OUT="$D/out" "$(dirname "$0")/../vf" check "$PID" --tier "$TIER" > "$D/log.txt" 2>&1
+# object cache: start from the main one (hard links) so that only the units the patch touches are recompiled
+[ -d "$(dirname "$0")/../build/objcache" ] && cp -al "$(dirname "$0")/../build/objcache" "$D/objcache"
+VERIF_OBJCACHE="$D/objcache" VERIF_REPO="$D" VERIF_BUILD="$D/build" VERIF_OUT="$D/out" "$(dirname "$0")/../vf" check "$PID" --tier "$TIER" > "$D/log.txt" 2>&1
 rc=$?
 grep -A3 "^VIOLATION" "$D/log.txt" | head -16
 tail -1 "$D/log.txt"
